@@ -66,19 +66,68 @@ def make_env(*, shopify: bool = False, depth: int = 30, loop: int | None = None,
 
     env = E(loader=loader)
     env.filters["tick"] = _tick
+    env.filters["tock"] = _tock
     return env
 
 
 TICKS: dict[int, int] = {}
+TICK_LOG: list[tuple[str, int]] = []
 
 
 def _tick(val: object) -> object:
+    """First statement of every loop body: one more iteration of loop `val`."""
     try:
         k = int(val)  # type: ignore[call-overload]
     except Exception:  # noqa: BLE001
         k = -1
     TICKS[k] = TICKS.get(k, 0) + 1
+    TICK_LOG.append(("i", k))
     return 0
+
+
+def _tock(val: object) -> object:
+    """First statement after every loop: loop `val` is over."""
+    try:
+        k = int(val)  # type: ignore[call-overload]
+    except Exception:  # noqa: BLE001
+        k = -1
+    TICK_LOG.append(("e", k))
+    return 0
+
+
+def largest_nest(log: list[tuple[str, int]]) -> int:
+    """The property's own notion of a nest, measured on a finished render and
+    independent of the implementation's bookkeeping: rebuild the dynamic tree
+    of loop executions from the iteration / end-of-loop marks and return the
+    largest product of iteration counts along a path (the number of times the
+    innermost body of some nest of loops ran inside ONE execution of its
+    outermost loop). Loops that run one after the other are different nests."""
+    best = 0
+    stack: list[list[int]] = []      # [loop id, iterations so far, best product below]
+    def close() -> None:
+        nonlocal best
+        k, n, below = stack.pop()
+        prod = n * max(below, 1)
+        if stack:
+            stack[-1][2] = max(stack[-1][2], prod)
+        else:
+            best = max(best, prod)
+    for kind, k in log:
+        if kind == "i":
+            while stack and stack[-1][0] != k and any(f[0] == k for f in stack):
+                close()              # an inner loop ended without its mark (cannot happen without break)
+            if stack and stack[-1][0] == k:
+                stack[-1][1] += 1
+            else:
+                stack.append([k, 1, 0])
+        else:
+            if any(f[0] == k for f in stack):
+                while stack[-1][0] != k:
+                    close()
+                close()
+    while stack:
+        close()
+    return best
 
 
 # ---------------------------------------------------------------- Coq printers
@@ -915,11 +964,12 @@ def traced_render(env: Any, name: str, data: dict, *, trace_buffers: bool) -> di
     from liquid2.output import LimitedStringIO
 
     TICKS.clear()
+    TICK_LOG.clear()
     res: dict[str, Any] = {}
     try:
         t = env.get_template(name)
     except Exception as e:  # noqa: BLE001
-        return {"outcome": type(e).__name__, "out": None, "tr": None, "ticks": {}, "root_ctx": (0, 4),
+        return {"outcome": type(e).__name__, "out": None, "tr": None, "ticks": {}, "nest": 0, "root_ctx": (0, 4),
                 "final_bufs": None}
     buf = t._get_buffer()
     tb = trace_buffers and type(buf) is LimitedStringIO
@@ -946,6 +996,7 @@ def traced_render(env: Any, name: str, data: dict, *, trace_buffers: bool) -> di
     res["out"] = _raw_getvalue(buf) if res["outcome"] == "ok" else None
     res["tr"] = tr
     res["ticks"] = dict(TICKS)
+    res["nest"] = largest_nest(list(TICK_LOG))
     res["final_bufs"] = [snap_buf(b) for b in reversed(tr.bufstack)] if tb else None
     res["root_ctx"] = (len(ctx.loops), ctx.scope.size())
     return res
@@ -996,7 +1047,12 @@ class PG:
         k = self.n_loop
         self.n_loop += 1
         self.static[k] = prod
+        self.last = k
         return "{%% assign t = %d | tick %%}" % k
+
+    @staticmethod
+    def tock(k: int) -> str:
+        return "{%% assign t = %d | tock %%}" % k
 
     def partial(self, src: str) -> str:
         name = f"p{self.n_tpl}"
@@ -1037,15 +1093,22 @@ class PG:
             self.n_var += 1
             return '{%% assign v%d = "%s" %%}' % (self.n_var % 3, "x" * r.randint(0, 12))
         if k == "for":
-            return ("{%% for i in (1..%d) %%}" % n + self.tick(prod * n)
-                    + self.body(nest + 1, prod * n, flags, size) + "{% endfor %}")
+            tk = self.tick(prod * n)
+            lk = self.last
+            return ("{%% for i in (1..%d) %%}" % n + tk
+                    + self.body(nest + 1, prod * n, flags, size) + "{% endfor %}" + self.tock(lk))
         if k == "forarr":
             n = r.choice([1, 2, 3])
-            return ("{%% for i in a%d %%}" % n + self.tick(prod * n)
-                    + self.body(nest + 1, prod * n, flags, size) + "{% endfor %}")
+            tk = self.tick(prod * n)
+            lk = self.last
+            return ("{%% for i in a%d %%}" % n + tk
+                    + self.body(nest + 1, prod * n, flags, size) + "{% endfor %}" + self.tock(lk))
         if k == "tablerow":
-            return ("{%% tablerow i in (1..%d) cols: 2 %%}" % n + self.tick(prod * n)
-                    + self.body(nest + 1, prod * n, flags | {"tr"}, size) + "{% endtablerow %}")
+            tk = self.tick(prod * n)
+            lk = self.last
+            return ("{%% tablerow i in (1..%d) cols: 2 %%}" % n + tk
+                    + self.body(nest + 1, prod * n, flags | {"tr"}, size) + "{% endtablerow %}"
+                    + self.tock(lk))
         if k == "if":
             inner = flags | {"blank"} if (blank or r.random() < 0.6) else flags
             return "{% if true %}" + self.body(nest, prod, inner, size) + "{% endif %}"
@@ -1066,9 +1129,11 @@ class PG:
         if k == "includefor":
             n = r.choice([0, 1, 2, 3])
             p = self.partial("")
-            self.t[p] = self.tick(prod * n) + self.body(nest + 1, prod * n, inner_flags, size)
+            tk = self.tick(prod * n)
+            lk = self.last
+            self.t[p] = tk + self.body(nest + 1, prod * n, inner_flags, size)
             return ("{%% include '%s' for (1..%d) %%}" % (p, n) if (n == 0 or r.random() < 0.5)
-                    else "{%% include '%s' for a%d %%}" % (p, n))
+                    else "{%% include '%s' for a%d %%}" % (p, n)) + self.tock(lk)
         if k == "render":
             p = self.partial("")
             self.t[p] = self.body(nest, prod, inner_flags | {"render"}, size)
@@ -1076,9 +1141,11 @@ class PG:
         if k == "renderfor":
             n = r.choice([0, 1, 2, 3])
             p = self.partial("")
-            self.t[p] = self.tick(prod * n) + self.body(nest + 1, prod * n, inner_flags | {"render"}, size)
+            tk = self.tick(prod * n)
+            lk = self.last
+            self.t[p] = tk + self.body(nest + 1, prod * n, inner_flags | {"render"}, size)
             return ("{%% render '%s' for (1..%d) %%}" % (p, n) if (n == 0 or r.random() < 0.5)
-                    else "{%% render '%s' for a%d as q %%}" % (p, n))
+                    else "{%% render '%s' for a%d as q %%}" % (p, n)) + self.tock(lk)
         if k == "macro":
             self.n_macro += 1
             m = f"m{self.n_macro}"
@@ -1175,13 +1242,13 @@ CORPUS = [
     # the witnesses of the defects this property had (fixed or known), run first
     {"id": "d10-newline", "templates": {"main": "a\r\nb\rc{{ u2 }}"}, "data": DATA, "shopify": False,
      "kind": "acyclic"},
-    {"id": "d22-render-for", "templates": {"main": "{% render 'p' for (1..5) %}",
-                                           "p": "{% assign t = 0 | tick %}{% for j in (1..5) %}{% assign t = 1 | tick %}x{% endfor %}"},
+    {"id": "d22-render-for", "templates": {"main": "{% render 'p' for (1..5) %}{% assign t = 0 | tock %}",
+                                           "p": "{% assign t = 0 | tick %}{% for j in (1..5) %}{% assign t = 1 | tick %}x{% endfor %}{% assign t = 1 | tock %}"},
      "data": DATA, "shopify": False, "kind": "acyclic"},
-    {"id": "d22-include-for", "templates": {"main": "{% include 'p' for a3 %}",
-                                            "p": "{% assign t = 0 | tick %}{% for j in (1..4) %}{% assign t = 1 | tick %}x{% endfor %}"},
+    {"id": "d22-include-for", "templates": {"main": "{% include 'p' for a3 %}{% assign t = 0 | tock %}",
+                                            "p": "{% assign t = 0 | tick %}{% for j in (1..4) %}{% assign t = 1 | tick %}x{% endfor %}{% assign t = 1 | tock %}"},
      "data": DATA, "shopify": False, "kind": "acyclic"},
-    {"id": "d22-tablerow", "templates": {"main": "{% tablerow i in (1..4) %}{% assign t = 0 | tick %}{% for j in (1..3) %}{% assign t = 1 | tick %}x{% endfor %}{% endtablerow %}"},
+    {"id": "d22-tablerow", "templates": {"main": "{% tablerow i in (1..4) %}{% assign t = 0 | tick %}{% for j in (1..3) %}{% assign t = 1 | tick %}x{% endfor %}{% assign t = 1 | tock %}{% endtablerow %}{% assign t = 0 | tock %}"},
      "data": DATA, "shopify": True, "kind": "acyclic"},
     {"id": "surrogate", "templates": {"main": "a{{ sg }}b"}, "data": DATA, "shopify": False, "kind": "acyclic"},
     {"id": "nested-capture", "templates": {"main": "ab{% capture x %}cd{% capture y %}éé{% endcapture %}{{ y }}{% endcapture %}{{ x }}"},
@@ -1190,8 +1257,8 @@ CORPUS = [
 
 # known findings: block.super renders the parent block with the outer context
 SUPER_LOOP = {"id": "block-super-loop", "templates": {
-    "base": "{% block one %}{% for i in (1..5) %}{% assign t = 1 | tick %}b{% endfor %}|{% endblock %}",
-    "main": "{% extends 'base' %}{% block one %}{% for k in (1..5) %}{% assign t = 0 | tick %}{{ block.super }}{% endfor %}{% endblock %}"},
+    "base": "{% block one %}{% for i in (1..5) %}{% assign t = 1 | tick %}b{% endfor %}{% assign t = 1 | tock %}|{% endblock %}",
+    "main": "{% extends 'base' %}{% block one %}{% for k in (1..5) %}{% assign t = 0 | tick %}{{ block.super }}{% endfor %}{% assign t = 0 | tock %}{% endblock %}"},
     "data": DATA, "shopify": False, "kind": "acyclic"}
 SUPER_NS = {"id": "block-super-namespace", "templates": {
     "base": "{% block one %}{% assign z = 'zzzzzzzzzzzzzzzzzzzzzzzzzzzzzzzzzzzzzzzz' %}{% endblock %}",
@@ -1216,7 +1283,7 @@ def measure(prog: dict[str, Any]) -> dict[str, Any]:
     if free["outcome"] == "ok":
         m["bytes_out"] = enc_len(free["out"])
         m["bytes_need"] = far["tr"].need_bytes
-        m["loop_need"] = max(free["ticks"].values(), default=0)
+        m["loop_need"] = free["nest"]
         m["depth_need"] = free["tr"].need_depth
         m["ns_need"] = far["tr"].max_locals_chain
         m["ns_all"] = far["tr"].max_locals_all
@@ -1530,10 +1597,10 @@ def main(chk: C.Check, build: C.Build) -> None:
     # ---- known findings: re-observe the recorded witnesses
     res = traced_render(env_for(SUPER_LOOP, loop=10), "main", DATA, trace_buffers=False)
     evaluations += 1
-    if res["outcome"] == "ok" and max(res["ticks"].values(), default=0) > 10:
+    if res["outcome"] == "ok" and res["nest"] > 10:
         chk.finding("block-super-loop-escape",
                     f"for (5) around {{{{ block.super }}}} whose parent block loops 5 times: "
-                    f"{max(res['ticks'].values())} iterations under loop_iteration_limit 10, no error "
+                    f"{res['nest']} iterations under loop_iteration_limit 10, no error "
                     "(Coq witness c06_loop_nest_bounded_refuted)",
                     {"templates": SUPER_LOOP["templates"], "loop_iteration_limit": 10, "ticks": res["ticks"]})
         add_traces(SUPER_LOOP, "loop", {"loop": 10}, res)
